@@ -264,8 +264,11 @@ class CFG:
     def loop_region(self, head):
         """every node that belongs to the loop statement's body (dominated by the true edge of the head), including
         nodes that leave the loop (break / return / raise) and therefore never reach the head again."""
-        true_edge = [s for s in head.succ if s.kind == "edge" and s.label is True][0]
-        return {n for n in self.nodes if self.dominates(true_edge, n)}
+        inside = set()
+        for st in head.stmt.body:
+            for x in ast.walk(st):
+                inside.add(id(x))
+        return {n for n in self.nodes if n.stmt is not None and id(n.stmt) in inside}
 
     def loop_body_nodes(self, head):
         """nodes of the loop whose head (test/for node) is given: reachable from the true
